@@ -191,22 +191,50 @@ def parse_assumptions(out):
     return {k: "\n".join(v) for k, v in res.items()}
 
 
+ALLOWED_AXIOM_PREFIXES = (
+    "ClassicalDedekindReals.", "FunctionalExtensionality.", "Classical_Prop.", "PrimFloat.", "PrimInt63.",
+    "FloatAxioms.", "Uint63.", "Eqdep.", "JMeq.", "ProofIrrelevance.", "ClassicalEpsilon.", "Epsilon.",
+    "ChoiceFacts.", "Description.", "IndefiniteDescription.", "ClassicalUniqueChoice.", "Classical_Pred_Type.",
+    "PropExtensionality.", "Int63.", "Floats.", "SpecFloat.", "PrimArray.", "Rdefinitions.", "Raxioms.",
+    "ClassicalFacts.", "Coq.", "Flocq.", "Interval.", "Coquelicot.")
+# kernel primitives print unqualified when PrimFloat / Uint63 are imported
+PRIMITIVE_NAMES = set("""float int abs eqb sub sqrt of_uint63 normfr_mantissa mul ltb ldshiftexp frshiftexp div compare add
+opp leb classify next_up next_down lsl lsr land lor lxor head0 tail0 mod addc subc addcarryc subcarryc mulc diveucl
+diveucl_21 addmuldiv compares ltbs lebs divs mods asr to_uint63 of_int63""".split())
+
+
+def check_assumptions(text):
+    """names listed by Print Assumptions that are neither kernel primitives nor standard-library /
+    installed-library axioms (this development declares none, so any other name is a leak)"""
+    bad = []
+    for line in text.splitlines():
+        if not line or line[0] in " \t" or line.startswith(("Axioms:", "Closed under", "Section Variables:", "Fetching")):
+            continue
+        name = line.split(":")[0].split()[0] if line.split() else ""
+        if not name or name in PRIMITIVE_NAMES or name.startswith(ALLOWED_AXIOM_PREFIXES):
+            continue
+        bad.append(name)
+    return bad
+
+
 def gate_no_axioms(prop=None):
     """no Axiom/Admitted/... in the library, the specs and the proof files of `prop`
     (all proof directories when prop is None)"""
-    pat = re.compile(r"\b(Admitted|admit|Axiom|Axioms|Parameter|Parameters|Conjecture|Hypothesis|Variable)\b|Unset Guard|bypass_check|type-in-type|impredicative-set")
+    pat = re.compile(r"\b(Admitted|admit|Axiom|Axioms|Parameter|Parameters|Conjecture|Conjectures|Hypothesis|Hypotheses|Variable|Variables|Context|give_up|Abort)\b|Admit Obligations|Unset Guard|Unset Positivity|Unset Universe|bypass_check|type-in-type|impredicative-set")
     bad = []
     files = glob.glob(os.path.join(VERIF, "coq", "lib", "*.v")) + glob.glob(os.path.join(VERIF, "coq", "spec", "*.v"))
     files += glob.glob(os.path.join(VERIF, "coq", "proofs", prop or "*", "*.v"))
     for f in files:
         insec = 0
-        for i, line in enumerate(open(f), 1):
-            code = re.sub(r"\(\*.*?\*\)", "", line)
+        # blank out comments (also multi-line, non-nested is enough here) but keep line numbers
+        src = re.sub(r"\(\*.*?\*\)", lambda m: re.sub(r"[^\n]", " ", m.group(0)), open(f).read(), flags=re.S)
+        for i, line in enumerate(src.splitlines(), 1):
+            code = line
             if re.match(r"\s*Section\b", code): insec += 1
             if re.match(r"\s*End\b", code) and insec: insec -= 1
             m = pat.search(code)
             if m:
-                if m.group(1) in ("Variable", "Hypothesis") and insec: continue
+                if m.group(1) in ("Variable", "Hypothesis", "Variables", "Hypotheses", "Context") and insec: continue
                 bad.append("%s:%d: %s" % (os.path.relpath(f, VERIF), i, line.strip()))
     return bad
 
